@@ -31,7 +31,8 @@ CfgOf(f) == IF f \in {"docstring", "docstring_keep"} THEN [style |-> "rest", edd
 CommonTyps == {"int", "float", "str", "bool", "Opt_int", "Opt_float", "Opt_str", "Opt_bool", "Lit"}
 CommonParams == {p \in ParamsOver(CommonTyps, Defs \ {"code"}, {"plain"}) : p.def # "absent"}   \* every parameter has a default
 \* C08's domain is hostile on purpose: untyped entries, descriptions containing the type-hint trigger words
-TrigDocs == {"trig_number", "trig_whether", "trig_listof", "trig_or", "trig_default", "doc_colon", "doc_paren", "doc_question", "multi", "ellipsis"}
+TrigDocs == {"trig_number", "trig_whether", "trig_listof", "trig_or", "trig_default", "doc_colon", "doc_paren", "doc_question", "multi", "ellipsis",
+             "comma_default"}     \* "the x, defaults to 5": the default clause hangs on a comma, in closing position
 \* ... and type/default MISMATCHES that ordinary, if sloppy, Python is full of (`x: str = None`, `n: int = None`): round one may
 \* normalise them (Optional wrapping), round two must not move again
 Mismatched == [typ : {"str", "int", "bool"}, def : {"None"}, doc : {"plain"}]
@@ -41,7 +42,8 @@ Dom == IF Mode = "chain" THEN CommonParams ELSE FixParams
 SmallDom == IF Mode = "chain" THEN {p \in CommonParams : p.typ \in {"int", "Opt_str", "Lit"}}
             ELSE ParamsOver({"int", "str", "Opt_int"}, {"absent", "None", "int_pos", "str"}, {"plain"})
 ParamSeqs == {<<p>> : p \in Dom} \cup (IF MaxParams >= 2 THEN {<<p, r>> : p \in Dom, r \in SmallDom} ELSE {})
-Rets == IF Mode = "chain" THEN {NoRet} ELSE {NoRet, [typ |-> "int", def |-> "absent", doc |-> "plain"]}
+\* (a return entry has no signature to carry a default: the data formats write it into the prose on emit and cut it out again on parse)
+Rets == IF Mode = "chain" THEN {NoRet} ELSE {NoRet, [typ |-> "int", def |-> "absent", doc |-> "plain"], [typ |-> "int", def |-> "absent", doc |-> "comma_default"]}
 
 \* ---- one round trip on the abstract interface ------------------------------------------------------
 Top == [doc |-> "TOP", params |-> <<>>, ret |-> NoRet]
@@ -60,9 +62,9 @@ Nm(f, x) == IF f \in DocFmts THEN D!Norm(CfgOf(f), x) ELSE IF f \in DataFmts THE
 \* the domain on which a format is quantified in C08
 JsonTyps == {"int", "float", "str", "bool", "dict", "Opt_int", "Opt_float", "Opt_str", "Opt_bool", "Opt_dict", "Lit"}
 InFixDomain(f, x) ==
-  CASE f = "json_schema" -> \A k \in 1..Len(x.params) : x.params[k].typ \in JsonTyps /\ x.params[k].doc \in {"plain", "dot", "ellipsis"}
+  CASE f = "json_schema" -> \A k \in 1..Len(x.params) : x.params[k].typ \in JsonTyps /\ x.params[k].doc \in {"plain", "dot", "ellipsis", "comma_default"}
     [] f \in {"sqlalchemy", "sqlalchemy_table"} ->
-         \A k \in 1..Len(x.params) : x.params[k].typ \in JsonTyps /\ x.params[k].doc \in {"plain", "dot", "ellipsis"}
+         \A k \in 1..Len(x.params) : x.params[k].typ \in JsonTyps /\ x.params[k].doc \in {"plain", "dot", "ellipsis", "comma_default"}
                                        /\ (IsOpt(x.params[k].typ) => x.params[k].def \in {"absent", "None"})
     [] f \in {"docstring_google", "docstring_numpydoc"} -> SigLegal(x.params) /\ \A k \in 1..Len(x.params) : x.params[k].doc \in {"plain", "dot"}
     [] OTHER -> TRUE
